@@ -193,7 +193,7 @@ func (t *tr) emitAll() {
 					changed = true
 				}
 			}
-			for c := range F.callees {
+			for _, c := range F.sortedCallees() {
 				if C := t.funcs[c]; C.skip != "" && F.skip == "" {
 					F.skip = "calls skipped " + C.name
 					changed = true
@@ -217,7 +217,7 @@ func (t *tr) emitAll() {
 				if F.skip != "" {
 					continue
 				}
-				for c := range F.callees {
+				for _, c := range F.sortedCallees() {
 					if C := t.funcs[c]; C.skip != "" {
 						F.skip = "calls skipped " + C.name
 						F.lines = nil
@@ -323,11 +323,17 @@ func (t *tr) write(dir string) {
 	}
 	// functions that mention float64/float32 go to their own modules (<File>Float), so that the
 	// modules the existing proofs import keep their text
+	// Likewise the functions of the text layer (see text.go) go to <File>Text modules
+	// (<File>TextFloat if they also mention floats).
 	modFile := func(F *fn) string {
-		if F.usesFloat {
-			return strings.TrimSuffix(F.file, ".go") + "Float.go"
+		f := strings.TrimSuffix(F.file, ".go")
+		if F.text {
+			f += "Text"
 		}
-		return F.file
+		if F.usesFloat {
+			f += "Float"
+		}
+		return f + ".go"
 	}
 	sort.SliceStable(items, func(i, j int) bool {
 		ri, ok1 := rank[fileOf(items[i])]
@@ -428,11 +434,19 @@ func (t *tr) write(dir string) {
 		placedF[F] = put(modFile(F), deps, F.lines, F.name)
 		visiting[F] = false
 	}
+	// Two passes: everything outside the text layer first, in the order that produced the modules
+	// the proofs are tied to; then the text-layer functions (never called from the first group),
+	// which therefore cannot pull a callee forward inside an existing module.
 	for _, it := range items {
-		if it.F != nil {
+		if it.F != nil && !it.F.text {
 			placeF(it.F)
-		} else {
+		} else if it.G != nil {
 			placeG(it.G)
+		}
+	}
+	for _, it := range items {
+		if it.F != nil && it.F.text {
+			placeF(it.F)
 		}
 	}
 	var all []string
@@ -466,6 +480,10 @@ func (t *tr) write(dir string) {
 		Globals bool     `json:"reads_DefaultRoundingMode"`
 		Skip    string   `json:"skipped,omitempty"`
 		Writes  []string `json:"writes_package_vars,omitempty"`
+		// calls of other packages' functions at which the model stops with Go.Panic.unmodelled
+		Unmodelled []string `json:"unmodelled,omitempty"`
+		// calls of other packages' functions inside a panic message (the message is not modelled)
+		Dropped []string `json:"panic_message_calls_dropped,omitempty"`
 	}
 	var rep struct {
 		Functions []frep            `json:"functions"`
@@ -474,6 +492,9 @@ func (t *tr) write(dir string) {
 	rep.Vars = map[string]string{}
 	for _, F := range t.order {
 		r := frep{Name: F.name, File: F.file, Monadic: F.monadic, Globals: F.usesG, Skip: F.skip, Writes: F.writes}
+		if F.skip == "" {
+			r.Unmodelled, r.Dropped = F.unmodelled, F.dropped
+		}
 		if m := placedF[F]; m != nil {
 			r.Module = m.name
 		}
